@@ -10,7 +10,7 @@ CONSTANTS
   Reserves <- MCReserves
   Avails <- MCAvails
   Traffs <- MCTraffs
-  MaxOps = 5
+  MaxOps = 4
 INVARIANTS TypeOK NonNegative LockProtocol PaymentRequested NoDeadlock
 PROPERTIES BalanceFrame DebitFrame
 CHECK_DEADLOCK FALSE
